@@ -5,7 +5,8 @@
    vyxal/elements.py (the element functions and templates named at each definition),
    vyxal/context.py.  No proofs in this file.
 
-   Domain.  Values are integers, (finite) lists and function values.  The implementation
+   Domain.  Values are integers, strings (lists of code points), (finite) lists and function
+   values.  The implementation
    evaluates maps / filters / vectorised calls lazily; the model evaluates eagerly and
    therefore answers EStuck ("outside the modelled domain") whenever the difference could
    be observed: a lazily applied function must be side-effect free (`pure_list`) and its
@@ -25,7 +26,7 @@ Inductive param := PNum (n : nat) | PName (x : str) | PStar.
 Record closure := mkClo {
   c_named : bool; c_params : list param; c_arity : Z; c_stored : option Z; c_body : list struct }.
 
-Inductive value := VInt (z : Z) | VList (l : list value) | VFun (c : closure).
+Inductive value := VInt (z : Z) | VStr (t : str) | VList (l : list value) | VFun (c : closure).
 
 Inductive err := EStuck | EName | EIndex | ENotCore.
 Inductive xres (A : Type) := XOk (x : A) | XErr (e : err) | XFuel.
@@ -161,17 +162,129 @@ Definition range_list (c : cfg) (z : Z) : option (list value) :=
   if n >? 5000 then None
   else Some (map (fun i => VInt (range_start c + Z.of_nat i)) (seq 0 (Z.to_nat n))).
 
+(* a string iterates over its characters (one-character strings) *)
+Definition chars_of (t : str) : list value := map (fun c => VStr [c]) t.
+
 (* iterable(x, range, ctx) *)
 Definition iter_range (c : cfg) (v : value) : option (list value) :=
-  match v with VInt z => range_list c z | VList l => Some l | VFun _ => None end.
+  match v with VInt z => range_list c z | VStr t => Some (chars_of t) | VList l => Some l | VFun _ => None end.
 (* iterable(x, ctx=ctx) *)
 Definition iter_digits (v : value) : option (list value) :=
-  match v with VInt z => digits_of z | VList l => Some l | VFun _ => None end.
+  match v with VInt z => digits_of z | VStr t => Some (chars_of t) | VList l => Some l | VFun _ => None end.
 
-(* ---- vectorising arithmetic (elements.vectorise, vy_zip with zero fill) -------------------------- *)
-Fixpoint vec1 (f : Z -> Z) (v : value) : option value :=
+(* ---- scalars: numbers and strings (helpers.primitive_type) ------------------------------------------------ *)
+Definition b2z (b : bool) : Z := if b then 1 else 0.
+Definition is_scalar (v : value) : bool := match v with VInt _ | VStr _ => true | _ => false end.
+
+(* Python compares strings by code point *)
+Fixpoint str_ltb (a b : str) : bool :=
+  match a, b with
+  | _, [] => false
+  | [], _ :: _ => true
+  | x :: a', y :: b' => if (x <? y)%N then true else if (y <? x)%N then false else str_ltb a' b'
+  end.
+
+(* s * n; more than 5000 copies are outside the model *)
+Definition repeat_str (s : str) (n : Z) : option str :=
+  if n >? 5000 then None else Some (concat (repeat s (Z.to_nat n))).
+
+(* lhs.replace(rhs, ""): every non-overlapping occurrence, left to right; an empty pattern changes nothing *)
+Fixpoint is_prefix (p s : str) : bool :=
+  match p, s with
+  | [], _ => true
+  | x :: p', y :: s' => N.eqb x y && is_prefix p' s'
+  | _ :: _, [] => false
+  end.
+Fixpoint remove_all (fuel : nat) (s p : str) : str :=
+  match fuel with
+  | O => s
+  | S f =>
+      match s with
+      | [] => []
+      | c :: r => if is_prefix p s then remove_all f (skipn (length p) s) p else c :: remove_all f r p
+      end
+  end.
+Definition str_remove (s p : str) : str :=
+  match p with [] => s | _ => remove_all (S (length s)) s p end.
+
+(* helpers.ring_translate(string, map_source) *)
+Definition ring_translate (s m : str) : str :=
+  map (fun c => match find_index c m with
+                | Some i => nth (N.to_nat ((i + 1) mod N.of_nat (length m))) m c
+                | None => c
+                end) s.
+
+(* str.swapcase / the other string overloads below are modelled for ASCII text only *)
+Definition ascii_only (s : str) : bool := forallb (fun c => (c <? 128)%N) s.
+Definition swapcase (s : str) : str :=
+  map (fun c => if ((65 <=? c) && (c <=? 90))%N then (c + 32)%N
+                else if ((97 <=? c) && (c <=? 122))%N then (c - 32)%N else c) s.
+
+(* the scalar overloads of the arithmetic elements (elements.add, subtract, multiply, equals, less_than,
+   greater_than, negate, increment, decrement); None = outside the domain *)
+Definition add_s (a b : value) : option value :=
+  match a, b with
+  | VInt x, VInt y => Some (VInt (x + y))
+  | VInt x, VStr t => Some (VStr (Z_to_dec x ++ t))           (* str(lhs) + rhs *)
+  | VStr s, VInt y => Some (VStr (s ++ Z_to_dec y))           (* lhs + str(rhs) *)
+  | VStr s, VStr t => Some (VStr (s ++ t))
+  | _, _ => None
+  end.
+Definition sub_s (a b : value) : option value :=
+  match a, b with
+  | VInt x, VInt y => Some (VInt (x - y))
+  | VInt x, VStr t => option_map (fun d => VStr (d ++ t)) (repeat_str [45%N] x)     (* ("-" * lhs) + rhs *)
+  | VStr s, VInt y => option_map (fun d => VStr (s ++ d)) (repeat_str [45%N] y)     (* lhs + ("-" * rhs) *)
+  | VStr s, VStr t => Some (VStr (str_remove s t))                                  (* lhs.replace(rhs, "") *)
+  | _, _ => None
+  end.
+Definition mul_s (a b : value) : option value :=
+  match a, b with
+  | VInt x, VInt y => Some (VInt (x * y))
+  | VInt x, VStr t => option_map VStr (repeat_str t x)
+  | VStr s, VInt y => option_map VStr (repeat_str s y)
+  | VStr s, VStr t => Some (VStr (ring_translate s t))
+  | _, _ => None
+  end.
+Definition cmp_s (fz : Z -> Z -> bool) (fs : str -> str -> bool) (a b : value) : option value :=
+  match a, b with
+  | VInt x, VInt y => Some (VInt (b2z (fz x y)))
+  | VInt x, VStr t => Some (VInt (b2z (fs (Z_to_dec x) t)))   (* str(lhs) ? rhs *)
+  | VStr s, VInt y => Some (VInt (b2z (fs s (Z_to_dec y))))
+  | VStr s, VStr t => Some (VInt (b2z (fs s t)))
+  | _, _ => None
+  end.
+Definition eq_s := cmp_s Z.eqb str_eqb.
+Definition lt_s := cmp_s Z.ltb str_ltb.
+Definition gt_s := cmp_s Z.gtb (fun s t => str_ltb t s).
+Definition neg_s (a : value) : option value :=
+  match a with
+  | VInt x => Some (VInt (- x))
+  | VStr s => if ascii_only s then Some (VStr (swapcase s)) else None
+  | _ => None
+  end.
+Definition incr_s (a : value) : option value :=
+  match a with
+  | VInt x => Some (VInt (x + 1))
+  | VStr s => Some (VStr (map (fun c => if N.eqb c 32 then 48%N else c) s))        (* lhs.replace(" ", "0") *)
+  | _ => None
+  end.
+Definition decr_s (a : value) : option value :=
+  match a with
+  | VInt x => Some (VInt (x - 1))
+  | VStr s => Some (VStr (s ++ [45%N]))                                            (* lhs + "-" *)
+  | _ => None
+  end.
+Definition not_s (a : value) : option value :=                                     (* vectorised_not: int(not lhs) *)
+  match a with
+  | VInt x => Some (VInt (b2z (x =? 0)))
+  | VStr s => Some (VInt (b2z (match s with [] => true | _ => false end)))
+  | _ => None
+  end.
+
+(* ---- vectorising (elements.vectorise, vy_zip with zero fill): f acts on scalars ----------------------------- *)
+Fixpoint vec1 (f : value -> option value) (v : value) : option value :=
   match v with
-  | VInt z => Some (VInt (f z))
   | VList l =>
       option_map VList
         ((fix go (l : list value) : option (list value) :=
@@ -180,11 +293,12 @@ Fixpoint vec1 (f : Z -> Z) (v : value) : option value :=
             | x :: r => match vec1 f x, go r with Some y, Some ys => Some (y :: ys) | _, _ => None end
             end) l)
   | VFun _ => None
+  | _ => f v
   end.
 
-Fixpoint vec_r (f : Z -> Z -> Z) (a : Z) (b : value) : option value :=
+(* a is a scalar *)
+Fixpoint vec_r (f : value -> value -> option value) (a : value) (b : value) : option value :=
   match b with
-  | VInt y => Some (VInt (f a y))
   | VList l =>
       option_map VList
         ((fix go (l : list value) : option (list value) :=
@@ -193,11 +307,12 @@ Fixpoint vec_r (f : Z -> Z -> Z) (a : Z) (b : value) : option value :=
             | x :: r => match vec_r f a x, go r with Some y, Some ys => Some (y :: ys) | _, _ => None end
             end) l)
   | VFun _ => None
+  | _ => f a b
   end.
 
-Fixpoint vec_l (f : Z -> Z -> Z) (a : value) (b : Z) : option value :=
+(* b is a scalar *)
+Fixpoint vec_l (f : value -> value -> option value) (a : value) (b : value) : option value :=
   match a with
-  | VInt x => Some (VInt (f x b))
   | VList l =>
       option_map VList
         ((fix go (l : list value) : option (list value) :=
@@ -206,30 +321,31 @@ Fixpoint vec_l (f : Z -> Z -> Z) (a : value) (b : Z) : option value :=
             | x :: r => match vec_l f x b, go r with Some y, Some ys => Some (y :: ys) | _, _ => None end
             end) l)
   | VFun _ => None
+  | _ => f a b
   end.
 
-Fixpoint vec2 (f : Z -> Z -> Z) (a b : value) {struct a} : option value :=
+Fixpoint vec2 (f : value -> value -> option value) (a b : value) {struct a} : option value :=
   match a with
-  | VInt x => vec_r f x b
   | VFun _ => None
   | VList la =>
       match b with
-      | VInt y => vec_l f a y
       | VFun _ => None
       | VList lb =>
           option_map VList
             ((fix zip (la lb : list value) {struct la} : option (list value) :=
                 match la, lb with
-                | [], _ => mapM (vec_r f 0) lb                       (* left exhausted: left_item = 0 *)
+                | [], _ => mapM (vec_r f (VInt 0)) lb                (* left exhausted: left_item = 0 *)
                 | x :: ra, [] =>
-                    match vec_l f x 0, zip ra [] with Some y, Some ys => Some (y :: ys) | _, _ => None end
+                    match vec_l f x (VInt 0), zip ra [] with Some y, Some ys => Some (y :: ys) | _, _ => None end
                 | x :: ra, y :: rb =>
                     match vec2 f x y, zip ra rb with Some z, Some zs => Some (z :: zs) | _, _ => None end
                 end) la lb)
+      | _ => vec_l f a b
       end
+  | _ => vec_r f a b
   end.
 
-Definition b2z (b : bool) : Z := if b then 1 else 0.
+
 
 (* ---- truth ------------------------------------------------------------------------------------------
    `if boolify(condition, ctx):` -- a list is vectorised into a lazy list, whose truth is
@@ -238,6 +354,7 @@ Definition b2z (b : bool) : Z := if b then 1 else 0.
 Definition truthy (v : value) : option bool :=
   match v with
   | VInt z => Some (negb (z =? 0))
+  | VStr t => Some (match t with [] => false | _ => true end)                      (* int(bool(lhs)): "0" is true *)
   | VList l => Some (match l with [] => false | _ => true end)
   | VFun _ => None
   end.
@@ -246,6 +363,7 @@ Definition truthy (v : value) : option bool :=
 Definition py_not (v : value) : Z :=
   match v with
   | VInt z => b2z (z =? 0)
+  | VStr t => b2z (match t with [] => true | _ => false end)
   | VList l => b2z (match l with [] => true | _ => false end)
   | VFun _ => 0
   end.
@@ -258,6 +376,7 @@ Definition s_sep : str := [32; 124; 32]%N.     (* " | " *)
 Fixpoint repr (v : value) : option str :=
   match v with
   | VInt z => Some (Z_to_dec z)
+  | VStr t => Some ([96%N] ++ flat_map (fun c => if N.eqb c 96 then [92; 96]%N else [c]) t ++ [96%N])   (* `...` with \` *)
   | VList l =>
       match (fix go (l : list value) : option (list str) :=
                match l with
@@ -275,6 +394,7 @@ Definition print_bound : Z := 10 ^ 40.
 Definition print_text (v : value) : option str :=
   match v with
   | VInt z => if Z.abs z <? print_bound then Some (Z_to_dec z) else None
+  | VStr t => Some t                                                             (* print(lhs): the text itself *)
   | _ => repr v
   end.
 
@@ -293,7 +413,7 @@ Fixpoint pure_struct (x : struct) : bool :=
   match x with
   | SGeneric t =>
       match tk t with
-      | KNumber => true
+      | KNumber | KString | KCharacter | KCompString => true
       | KGeneral => match tv t with [k] => negb (mem k impure_keys) | _ => false end
       | _ => false
       end
@@ -313,7 +433,7 @@ Definition pure_list (l : list struct) : bool := forallb pure_struct l.
 
 Fixpoint no_fun (v : value) : bool :=
   match v with
-  | VInt _ => true
+  | VInt _ | VStr _ => true
   | VList l => forallb no_fun l
   | VFun _ => false
   end.
@@ -419,7 +539,7 @@ Section WithCalls.
   Definition sum_values (l : list value) : option value :=
     match l with
     | [] => Some (VInt 0)
-    | x :: r => fold_left (fun acc y => match acc with Some a => vec2 Z.add a y | None => None end) r (Some x)
+    | x :: r => fold_left (fun acc y => match acc with Some a => vec2 add_s a y | None => None end) r (Some x)
     end.
 
   (* ---- the element table of the core (key = code point of the one-character element) ------------- *)
@@ -428,27 +548,27 @@ Section WithCalls.
      104; 116; 102; 7768; 8721; 110; 63; 44; 8230; 77; 70; 7777; 8224; 163; 165]%N.
 
   Definition elem_pure (k : N) (s : state) : xres state :=
-    if (k =? 43)%N then ( bin (vec2 Z.add) s                                              (* + add *))
+    if (k =? 43)%N then ( bin (vec2 add_s) s                                              (* + add *))
     else
-    if (k =? 45)%N then ( bin (vec2 Z.sub) s                                              (* - subtract *))
+    if (k =? 45)%N then ( bin (vec2 sub_s) s                                              (* - subtract *))
     else
-    if (k =? 42)%N then ( bin (vec2 Z.mul) s                                              (* * multiply *))
+    if (k =? 42)%N then ( bin (vec2 mul_s) s                                              (* * multiply *))
     else
-    if (k =? 78)%N then ( un (vec1 Z.opp) s                                               (* N negate *))
+    if (k =? 78)%N then ( un (vec1 neg_s) s                                               (* N negate *))
     else
-    if (k =? 8250)%N then ( un (vec1 Z.succ) s                                            (* › increment *))
+    if (k =? 8250)%N then ( un (vec1 incr_s) s                                            (* › increment *))
     else
-    if (k =? 8249)%N then ( un (vec1 Z.pred) s                                            (* ‹ decrement *))
+    if (k =? 8249)%N then ( un (vec1 decr_s) s                                            (* ‹ decrement *))
     else
-    if (k =? 100)%N then ( un (fun a => vec2 Z.mul a (VInt 2)) s                          (* d multiply(lhs, 2) *))
+    if (k =? 100)%N then ( un (fun a => vec2 mul_s a (VInt 2)) s                          (* d multiply(lhs, 2) *))
     else
     if (k =? 172)%N then ( un (fun a => Some (VInt (py_not a))) s                         (* ¬ int(not lhs) *))
     else
-    if (k =? 61)%N then ( bin (vec2 (fun x y => b2z (x =? y))) s                          (* = *))
+    if (k =? 61)%N then ( bin (vec2 eq_s) s                          (* = *))
     else
-    if (k =? 60)%N then ( bin (vec2 (fun x y => b2z (x <? y))) s                          (* < *))
+    if (k =? 60)%N then ( bin (vec2 lt_s) s                          (* < *))
     else
-    if (k =? 62)%N then ( bin (vec2 (fun x y => b2z (x >? y))) s                          (* > *))
+    if (k =? 62)%N then ( bin (vec2 gt_s) s                          (* > *))
     else
     if (k =? 58)%N then ( let (s1, a) := pop1 s in XOk (push a (push a s1))               (* : *))
     else
@@ -475,19 +595,21 @@ Section WithCalls.
                | VList la, VList lb => Some (VList (la ++ lb))
                | VList la, _ => Some (VList (la ++ [b]))
                | _, VList lb => Some (VList (a :: lb))
-               | _, _ => None
+               | VInt _, VInt _ => None                              (* vy_eval(str(lhs) + str(rhs)): not modelled *)
+               | _, _ => add_s a b                                   (* number / string: add; string, string: concatenation *)
                end) s)
     else
     if (k =? 76)%N then (                                                                 (* L len(iterable(lhs)) *)
         un (fun a => match a with
                      | VInt z => Some (VInt (Z.of_nat (length (Z_to_dec z))))
+                     | VStr t => Some (VInt (Z.of_nat (length t)))
                      | VList l => Some (z_length l)
                      | VFun _ => None
                      end) s)
     else
     if (k =? 104)%N then (                                                                (* h head *)
         un (fun a => match iter_digits a with
-                     | Some [] => Some (VInt 0)
+                     | Some [] => Some (match a with VStr _ => VStr [] | _ => VInt 0 end)
                      | Some (x :: _) => Some x
                      | None => None
                      end) s)
@@ -495,6 +617,7 @@ Section WithCalls.
     if (k =? 116)%N then (                                                                (* t tail *)
         un (fun a => match a with
                      | VInt z => Some (VInt (Z.abs z mod 10))
+                     | VStr t => Some (VStr (match rev t with c :: _ => [c] | [] => [] end))
                      | VList l => Some (last l (VInt 0))
                      | VFun _ => None
                      end) s)
@@ -502,6 +625,7 @@ Section WithCalls.
     if (k =? 102)%N then (                                                                (* f deep_flatten *)
         un (fun a => match a with
                      | VInt z => option_map VList (digits_of z)
+                     | VStr t => Some (VList (chars_of t))
                      | VList _ => Some (VList (flat a))
                      | VFun _ => None
                      end) s)
@@ -509,6 +633,7 @@ Section WithCalls.
     if (k =? 7768)%N then (                                                               (* Ṙ reverse *)
         un (fun a => match a with
                      | VInt z => Some (VInt (reverse_number z))
+                     | VStr t => Some (VStr (rev t))
                      | VList l => Some (VList (rev l))
                      | VFun _ => None
                      end) s)
@@ -574,8 +699,8 @@ Section WithCalls.
         let (s1, top) := pop1 s in
         match top with
         | VFun c => callstk c s1
-        | VList _ => xdo r <- of_opt (vec1 (fun z => b2z (z =? 0)) top); XOk (push r s1)
-        | VInt _ => XErr EStuck
+        | VList _ => xdo r <- of_opt (vec1 not_s top); XOk (push r s1)
+        | _ => XErr EStuck                                       (* a number: prime factors; a string: exec as Python *)
         end)
     else
     XErr ENotCore.
@@ -597,13 +722,12 @@ Section WithCalls.
         | 2%nat =>
             let (s1, rhs) := pop1 s in let (s2, lhs) := pop1 s1 in
             match lhs, rhs with
-            | VList l, VFun _ => XErr EStuck
+            | _, VFun _ | VFun _, _ => XErr EStuck
             | VList l, _ => xdo (ys, s3) <- map_app fA (fun y => [y; rhs]) l s2; XOk (push (VList ys) s3)
-            | VInt z, VList r => xdo (ys, s3) <- map_app fA (fun y => [lhs; y]) r s2; XOk (push (VList ys) s3)
-            | VInt z, VInt _ =>
-                xdo items <- of_opt (digits_of z);
+            | _, VList r => xdo (ys, s3) <- map_app fA (fun y => [lhs; y]) r s2; XOk (push (VList ys) s3)
+            | _, _ =>                                                (* two scalars: over the digits / characters of lhs *)
+                xdo items <- of_opt (iter_digits lhs);
                 xdo (ys, s3) <- map_app fA (fun y => [y; rhs]) items s2; XOk (push (VList ys) s3)
-            | _, _ => XErr EStuck
             end
         | _ => XErr EStuck
         end
@@ -665,6 +789,24 @@ Definition mod2_keys : str := [8332; 8333]%N.
 (* ---- literals, names ------------------------------------------------------------------------------------ *)
 Definition number_value (v : str) : option Z :=
   if all_ascii_digits v then Some (Z.of_N (dec_value v 0%N)) else None.
+
+(* string literals: what `stack.append("...")` / `stack.append('c')` pushes.  In the core: printable
+   ASCII and newline, no backslash (escape pairs) and nothing the dictionary compression reads (its
+   alphabet is non-ASCII), so that the re-escaping of transpile_token and Python's reading of the
+   literal are the identity; a character literal is that character; a compressed string is its
+   base-27 expansion (Transpile.uncompress_str) *)
+Definition plain_char (c : N) : bool := (((32 <=? c) && (c <=? 126) && negb (N.eqb c 92) && negb (N.eqb c 96)) || N.eqb c 10)%N.
+Definition string_value (t : token) : option str :=
+  match tk t with
+  | KString => if forallb plain_char (tv t) then Some (tv t) else None
+  | KCharacter => match tv t with [c] => if (((32 <=? c) && (c <=? 126)) || N.eqb c 10)%N then Some [c] else None | _ => None end
+  | KCompString =>
+      match uncompress_str (tv t) with
+      | Some s => match py_repr_plain s with Some _ => Some s | None => None end
+      | None => None
+      end
+  | _ => None
+  end.
 
 (* the Python identifier behind a variable / function name is VAR_<name>: one namespace *)
 Definition name_ok (n : str) : bool :=
@@ -731,7 +873,7 @@ Definition init_state (f : flag) (inputs : list value) : state :=
   mkSt (match f with FlH => [VInt 100] | _ => [] end) [VInt 0] (inputs, O) [] [] 2 (VInt 0) [] [] None [] false.
 
 (* vy_str(x) for the items of join *)
-Definition str_of (v : value) : option str := repr v.
+Definition str_of (v : value) : option str := match v with VStr t => Some t | _ => repr v end.
 
 (* `output` after the flag step: a value, or a text (flags j W build a string); None = outside
    the domain.  The step runs whether or not anything is printed afterwards. *)
@@ -742,6 +884,7 @@ Definition flag_step (f : flag) (originally_empty : bool) (output : value) (rest
   | Flj =>                                                  (* join(output, "\n") *)
       match output with
       | VInt z => Some (OText (join_with [10%N] (map (fun c => [c]) (Z_to_dec z))))
+      | VStr t => Some (OText (join_with [10%N] (map (fun c => [c]) t)))
       | VList l => option_map (fun parts => OText (join_with [10%N] parts)) (mapM str_of l)
       | VFun _ => None
       end
@@ -749,6 +892,7 @@ Definition flag_step (f : flag) (originally_empty : bool) (output : value) (rest
                                                                number sums to the string of its own digits *)
       match output with
       | VInt z => if z <? 0 then Some (OText (Z_to_dec z)) else option_map OVal (sum_values (digit_vals z))
+      | VStr t => option_map OVal (sum_values (chars_of t))
       | VList l => option_map OVal (sum_values l)
       | VFun _ => None
       end
@@ -793,7 +937,7 @@ Definition finish (app : app_t) (f : flag) (s : state) : xres state :=
    modifier operand).  There a variable assignment would create a Python local; the core
    keeps every assignment (variable set, named loop variable, function definition) at the
    top level, where the name is a global of the exec namespace.  Outside the core and
-   listed in the report: string / character / compressed literals, the ghost variable and
+   listed in the report: compressed numbers, string literals with escapes or non-ASCII text, the ghost variable and
    `_` names, triadic modifiers, elements outside `core_keys`, early exits (X x) where the
    emitted line is not what the documents say (see break_core / recurse_core).  `core_ok indef` is the part the evaluators themselves enforce (ENotCore);
    `scope_ok` adds the static name discipline under which the machine's treatment of Python
@@ -805,6 +949,7 @@ Definition token_core (indef : bool) (t : token) : bool :=
   | KGeneral => match tv t with [k] => mem k core_keys | _ => false end
   | KVarGet => name_ok (tv t)
   | KVarSet => name_ok (tv t) && negb indef
+  | KString | KCharacter | KCompString => match string_value t with Some _ => true | None => false end
   | _ => false
   end.
 
@@ -944,6 +1089,7 @@ Fixpoint seq_run (step : struct -> state -> fres) (p : list struct) (s : state) 
 Fixpoint veq (a b : value) {struct a} : bool :=
   match a, b with
   | VInt x, VInt y => x =? y
+  | VStr s, VStr t => str_eqb s t
   | VFun _, VFun _ => true
   | VList la, VList lb =>
       (fix go (la lb : list value) {struct la} : bool :=
@@ -963,11 +1109,17 @@ Fixpoint veq_list (a b : list value) : bool :=
 Definition a_fun : value := VFun (mkClo false [] 0 None []).
 
 (* outcome code of a run against an observation (error code, final stack bottom first, stdout):
-   0 agree; 1 differ; 2 EStuck; 3 out of fuel; 4 ENotCore; error codes of the observation:
+   0 agree; 1 differ; 7 differ in back-quotes only; 2 EStuck; 3 out of fuel; 4 ENotCore; error codes of the observation:
    0 none, 1 NameError, 2 IndexError, 9 any other exception *)
 Definition compare_run (r : xres state) (e : nat) (st : list value) (o : str) : nat :=
   match r with
-  | XOk s => if Nat.eqb e 0 && veq_list (rev (stk s)) st && str_eqb (out s) o then 0%nat else 1%nat
+  | XOk s =>
+      if Nat.eqb e 0 && veq_list (rev (stk s)) st then
+        if str_eqb (out s) o then 0%nat
+        else if str_eqb (filter (fun c => negb (N.eqb c 96)) (out s)) (filter (fun c => negb (N.eqb c 96)) o)
+             then 7%nat            (* the same text up to back-quotes: LazyList.output prints cached string items unquoted *)
+             else 1%nat
+      else 1%nat
   | XErr EStuck => 2%nat
   | XFuel => 3%nat
   | XErr ENotCore => 4%nat
